@@ -97,7 +97,10 @@ def assigned_names(stmts):
     return names, arrs, calls
 
 
-class Exec:
+from .bufs import BufMixin, Buf, BufRef, BufView, BufCopy
+
+
+class Exec(BufMixin):
     def __init__(self, ctx):
         self.ctx = ctx
 
@@ -180,6 +183,9 @@ class Exec:
         return i
 
     def subscript(self, st, fr, base, idx, node):
+        r = self.buf_subscript(st, fr, base, idx, node)
+        if r is not NotImplemented:
+            return r
         if isinstance(base, (list, tuple)):
             if isinstance(idx, slice):
                 return base[idx]
@@ -245,6 +251,9 @@ class Exec:
         return ExprArr(shape, fn, base.elem)
 
     def store(self, st, fr, base, idx, val, node):
+        r = self.buf_store(st, fr, base, idx, val, node)
+        if r is not NotImplemented:
+            return
         if isinstance(base, list):
             if is_cint(idx):
                 base[idx] = val
@@ -526,6 +535,10 @@ class Exec:
         return b_and(*res) if len(res) > 1 else res[0]
 
     def do_compare(self, opn, a, b, st, fr, node):
+        if opn in ('Is', 'IsNot'):
+            r = self.buf_is(a, b)
+            if r is not NotImplemented:
+                return r if opn == 'Is' else b_not(r)
         if isinstance(a, Arr) and isinstance(b, Arr) and opn in ('Is', 'IsNot'):
             return (a is b) == (opn == 'Is')
         if (a is None or b is None) and opn in ('Is', 'IsNot', 'Eq', 'NotEq'):
@@ -567,6 +580,9 @@ class Exec:
     def ev_Attribute(self, e, st, fr):
         base = self.ev(e.value, st, fr)
         a = e.attr
+        r = self.buf_attribute(st, fr, base, a, e)
+        if r is not NotImplemented:
+            return r
         if self.is_arr(base):
             if a == 'shape':
                 return tuple(base.shape)
@@ -678,6 +694,8 @@ class Exec:
         tmp = State()
         tmp.env = env
         tmp.heap = entry.heap
+        tmp.objs = entry.objs
+        tmp.bufs = entry.bufs
         tmp.pc = st.pc
         old_spec = fr.spec_only
         fr.spec_only = True
